@@ -39,6 +39,33 @@ fn decode_case<const PAY: usize>(hdr: &[u8], w: u32, h: u32, per_px: usize) {
     kani::cover!(n < need, "truncated");
 }
 
+/// the same with a *concrete* truncation point (one harness per length): the decoder's buffers
+/// then have concrete lengths, which keeps implementations that collect the payload into a Vec
+/// first within reach of the solver
+fn decode_truncated_at<const PAY: usize>(hdr: &[u8], w: u32, h: u32, per_px: usize, n: usize) {
+    let pay: [u8; PAY] = kani::any();
+    let need = (w * h) as usize * per_px;
+    match parse_pnm(hdr.iter().copied().chain(pay[..n].iter().copied())) {
+        Ok(img) => {
+            assert!(n >= need);
+            assert!(img.width() == w && img.height() == h && img.data().len() == (w * h) as usize);
+            let i: usize = kani::any();
+            kani::assume(i < (w * h) as usize);
+            let px = img.data()[i];
+            if per_px == 3 { assert!(px.0 == [pay[3 * i], pay[3 * i + 1], pay[3 * i + 2]]); } else { assert!(px.0 == [pay[i], pay[i], pay[i]]); }
+        }
+        Err(e) => { assert!(n < need && e == Error::UnexpectedEnd); }
+    }
+    kani::cover!(pay[0] == b'#' || pay[0] == b' ' || pay[0] == b'\n', "payload starts with '#' or whitespace");
+}
+macro_rules! trunc_harnesses {
+    ($($name:ident: $n:expr;)*) => { $( #[kani::proof] #[kani::unwind(40)] fn $name() { decode_truncated_at::<7>(b"P6 2 1 255\n", 2, 1, 3, $n); } )* };
+}
+trunc_harnesses! {
+    c13_p6_2x1_cut0: 0; c13_p6_2x1_cut1: 1; c13_p6_2x1_cut2: 2; c13_p6_2x1_cut3: 3;
+    c13_p6_2x1_cut4: 4; c13_p6_2x1_cut5: 5; c13_p6_2x1_cut6: 6; c13_p6_2x1_cut7: 7;
+}
+
 macro_rules! decode_harness {
     ($name:ident, $hdr:expr, $w:expr, $h:expr, $pp:expr, $pay:expr) => {
         #[kani::proof]
